@@ -153,6 +153,12 @@ def decorate(rnd, rules):
     rd = []
     for n, x in rules:
         rd.append(dict(name=n, exp=sub(x)))
+    if rnd.random() < 0.15:
+        # a rule include (>rule): the included rule's expression is used in place.  The included rule must be defined before
+        # the include, so a new last rule includes an earlier one and the start rule calls the new rule
+        target = rnd.choice(rd)['name']
+        rd.append(dict(name='zinc', exp=('seq', (('tok', 'b'), ('inc', target), ('opt', ('tok', ','))))))
+        rd[0]['exp'] = ('seq', (rd[0]['exp'], ('opt', ('call', 'zinc')))) if rnd.random() < 0.5 else ('alt', (('seq', (('tok', '+'), ('call', 'zinc'))), rd[0]['exp']))
     for d in rd:
         r = rnd.random()
         if r < 0.2:
